@@ -600,6 +600,10 @@ func (d *driver) run(replay string) int {
 		} else {
 			requested += cfg.Checks
 		}
+		if r.Invalid > 0 && (strings.HasPrefix(s.name, "rapid") || strings.HasPrefix(s.name, "enum")) {
+			// a generated or enumerated case the interpreter rejects tests nothing: never silent
+			undecided = append(undecided, fmt.Sprintf("%s: %d generated cases were rejected as invalid by the check's own interpreter (generator and validator disagree)", s.name, r.Invalid))
+		}
 		if !r.Done {
 			// died mid-run
 			if c := openJournalCase(s.journal); c != nil {
